@@ -103,10 +103,48 @@ def value_of(spec):
     if k == "bool":
         return bool(spec[1])
     if k == "np":
-        v = float.fromhex(spec[2]) if spec[2] not in ("inf", "-inf", "nan") else float(spec[2])
+        v = _fl(spec[2])
         with numpy.errstate(all="ignore"):
             return getattr(numpy, spec[1])(v)
+    if k == "npbits":
+        u = {"float16": numpy.uint16, "float32": numpy.uint32, "float64": numpy.uint64}[spec[1]]
+        return numpy.array([spec[2]], dtype=u).view(getattr(numpy, spec[1]))[0]
+    if k == "complex":
+        return complex(_fl(spec[1]), _fl(spec[2]))
+    if k == "npc":
+        with numpy.errstate(all="ignore"):
+            return getattr(numpy, spec[1])(complex(_fl(spec[2]), _fl(spec[3])))
     raise ValueError(spec)
+
+
+def _fl(h):
+    return float(h) if h in ("inf", "-inf", "nan") else float.fromhex(h)
+
+
+def _bits(v, w):
+    dt, u = {16: (numpy.float16, numpy.uint16), 32: (numpy.float32, numpy.uint32), 64: (numpy.float64, numpy.uint64)}[w]
+    return int(numpy.array([v], dtype=dt).view(u)[0])
+
+
+def val_spec(value):
+    """value specification handed to the Lean model of `toidentifier` (Models/ConstName.lean); follows the
+    isinstance order of the real function (numpy.float64 is a `float`, numpy.complex128 a `complex`)"""
+    if isinstance(value, bool):
+        return f"@bool:{int(value)}"
+    if isinstance(value, (int, numpy.integer)):
+        return f"@int:{int(value)}"
+    if isinstance(value, float):
+        return f"@pyfloat:{_bits(value, 64)}"
+    if isinstance(value, complex):
+        return f"@pycomplex:{_bits(value.real, 64)}:{_bits(value.imag, 64)}"
+    if isinstance(value, str):
+        return f"@name:{value}" if value.isidentifier() else None
+    if isinstance(value, numpy.floating) and value.dtype.itemsize in (2, 4):
+        w = value.dtype.itemsize * 8
+        return f"@npfloat:{w}:{_bits(value, w)}"
+    if isinstance(value, numpy.complexfloating) and value.dtype.itemsize == 8:
+        return f"@npcomplex:32:{_bits(value.real, 32)}:{_bits(value.imag, 32)}"
+    return None
 
 
 def build_impl(recipe, ctx, args):
@@ -190,10 +228,14 @@ class Describer:
                 self.unsupported = "constant with an alt-context value"
             named = isinstance(value, str)
             text = str(value)
-            try:
-                ident = fa_expr.toidentifier(value)
-            except Exception as ex:  # noqa: BLE001
-                ident = "!" + exc_name(ex)
+            # the MODEL derives the identifier from the value (Models/ConstName.lean); value classes it does
+            # not cover fall back to the real function's answer
+            ident = val_spec(value)
+            if ident is None:
+                try:
+                    ident = fa_expr.toidentifier(value)
+                except Exception as ex:  # noqa: BLE001
+                    ident = "!" + exc_name(ex)
             if named and P.constant_to_target.get(value, NotImplemented) is not NotImplemented:
                 t, err = self.typ(e)
                 pre = pre or err
@@ -328,6 +370,24 @@ def typed_value_key(c):
         return (t, "repr", repr(value))
 
 
+def zero_sign_blind(key):
+    """typed value key with the sign bit of every zero part cleared"""
+    out = []
+    for x in key:
+        if isinstance(x, int) and x in (1 << 15, 1 << 31, 1 << 63):
+            x = 0
+        out.append(x)
+    return tuple(out)
+
+
+def padded_idents_differ(es):
+    """would the identifiers differ if every byte were printed as two hex digits?"""
+    def padded(v):
+        parts = [v.real, v.imag] if isinstance(v, numpy.complexfloating) else [v]
+        return tuple(p.tobytes()[::-1].hex() for p in parts)
+    return len({padded(x.operands[0]) for x in es}) == len(es)
+
+
 def alias_report(graph):
     """no_alias evaluated on the real objects: distinct expressions reachable through printed
     operands that carry the same reference name."""
@@ -360,6 +420,11 @@ def alias_report(graph):
                     cls = "benign-same-typed-value"
                 elif len(likes) > 1:
                     cls = "constant-name-ignores-like-type"
+                elif len({zero_sign_blind(k) for k in keys}) == 1:
+                    cls = "constant-name-ignores-sign-of-zero"
+                elif all(isinstance(x.operands[0], (numpy.floating, numpy.complexfloating)) and
+                         not isinstance(x.operands[0], (float, complex)) for x in es) and padded_idents_differ(es):
+                    cls = "constant-name-numpy-hex-bytes-not-zero-padded"
                 else:
                     cls = "constant-different-values"
             elif any(isinstance(x.props.get("reference_name"), str) for x in es):
@@ -400,6 +465,8 @@ def prepare_graph(case, recipe_or_none, ctx, tname, target, res):
             if recipe_or_none is None:
                 g = g.rewrite(rewrite)
                 g.props.update(name=fname)
+            elif recipe_or_none.get("rewrite"):
+                g = g.rewrite(rewrite)
     except NotImplementedError as ex:
         res["status"] = "rejected"
         res["error"] = str(ex)[:200]
@@ -427,11 +494,45 @@ def run_case(case, cfg):
     return res
 
 
+def run_idents(case, res):
+    """`toidentifier` on the real code for a family of values + collisions among them (no_alias side
+    condition evaluated on the real function, independent of the model)"""
+    lines, out, seen = [], [], {}
+    collisions = []
+    for spec in case["values"]:
+        v = value_of(spec)
+        vs = val_spec(v)
+        if vs is None:
+            continue
+        try:
+            r = fa_expr.toidentifier(v)
+        except Exception as ex:  # noqa: BLE001
+            r = "!" + exc_name(ex)
+        lines.append("I\t" + vs)
+        out.append(r)
+        if r.startswith("!"):
+            continue
+        # typed value: class + bit patterns (vs encodes exactly that)
+        other = seen.setdefault((vs.split(":")[0], r), vs)
+        if other != vs:
+            a, b = other.split(":")[1:], vs.split(":")[1:]
+            zero = all(x == y or {int(x), int(y)} <= {0, 1 << 15, 1 << 31, 1 << 63} for x, y in zip(a, b))
+            collisions.append(dict(ident=r, values=[other, vs],
+                                   cls="sign-of-zero" if zero else ("numpy-hex-bytes" if vs.startswith("@np") else "other")))
+    res["status"] = "idents"
+    res["ilines"] = lines
+    res["iout"] = out
+    res["collisions"] = collisions
+    return res
+
+
 def run_case_(case, cfg):
     res = dict(id=case["id"], kind=case["kind"])
     try:
         if case["kind"] == "history":
             return run_history(case, res)
+        if case["kind"] == "idents":
+            return run_idents(case, res)
         recipe = case.get("recipe") if case["kind"] == "recipe" else None
         tname = recipe["target"] if recipe is not None else case["target"]
         res["target"] = tname
